@@ -291,9 +291,42 @@ def shrink(prop, cfg, ops, key, known=(), budget_s=60.0):
                     break
             if changed:
                 break
-    # fewer sessions
-    if cfg["nsess"] > 1 and all(o["s"] == ops[0]["s"] for o in ops):
-        pass
+    # literal seed documents: drop subtrees of the spec while the failure persists
+    import copy as _copy
+    for i, op in enumerate(ops):
+        if "spec" not in op or REAL_MONO() - t0 >= budget_s:
+            continue
+        progress = True
+        while progress and REAL_MONO() - t0 < budget_s:
+            progress = False
+            paths = []
+
+            def walk(node, path):
+                for j in range(len(node[3]) - 1, -1, -1):
+                    paths.append(path + [j])
+                    walk(node[3][j], path + [j])
+            walk(ops[i]["spec"], [])
+            paths.sort(key=lambda pth: len(pth))      # big subtrees first
+            for pth in paths:
+                if REAL_MONO() - t0 >= budget_s:
+                    break
+                spec = _copy.deepcopy(ops[i]["spec"])
+                node = spec
+                try:
+                    for j in pth[:-1]:
+                        node = node[3][j]
+                    del node[3][pth[-1]]
+                except IndexError:
+                    continue
+                nop = dict(ops[i])
+                nop["spec"] = spec
+                cand = ops[:i] + [nop] + ops[i + 1:]
+                ok, r = _fails(prop, cfg, cand, key, known)
+                if ok and len(r.ops) <= len(ops):
+                    ops = list(r.ops)
+                    best = r
+                    progress = True
+                    break
     return ops, best
 
 
